@@ -494,9 +494,9 @@ KEYS_WHAT = {
     'lifecycle': ('client:illegal-lifecycle-transition', 'a client call made a stored trial evolve illegally'),
     'views': ('client:illegal-lifecycle-through-trials-view', 'two successive Study.trials() views are not a legal evolution'),
     'promised': ('client:promised-exception-or-value-missing',
-                 'Study.get_trial / Study.from_resource_name of something that does not exist did not raise ResourceNotFoundError, or suggest on a study that is not open did not return []'),
+                 'Study.get_trial / Study.from_resource_name of something that does not exist did not raise ResourceNotFoundError, suggest on a study that is not open did not return [], or add_trial outside the search space did not raise ValueError'),
     'effects': ('client:documented-effect-of-call-missing',
-                'a client call did not have its documented effect (complete stores / returns the given measurement, stop -> STOPPING, set_state stores the state, delete removes the trial, update_metadata of a missing trial raises RuntimeError)'),
+                'a client call did not have its documented effect (add_trial / request store a new trial, complete stores / returns the given measurement, stop -> STOPPING, set_state stores the state, delete removes the trial, update_metadata of a missing trial raises RuntimeError)'),
     # the two documented behaviours the code as it exists does not have (known findings, kernel-checked counterexamples
     # client_complete_value_error_counterexample / client_early_stop_counterexample)
     'valueError': ('client:complete-with-nothing-to-select-does-not-raise-valueerror',
@@ -547,7 +547,10 @@ def evaluate(c, items, preds, deadline=None):
   fails = [[] for _ in items]
   for k, ans in zip(idx, answers):
     if 'error' in ans:
-      raise core.InfraError('client judge: %s' % ans)
+      # what the real client left behind cannot even be read into the model's types: a broken correspondence
+      c.tie_break('real client run not representable in the model (%s): %s' % (items[k][1], ans['error']),
+                  {'program': items[k][0], 'backend': items[k][1]}, {'obs': reals[k]['obs'], 'final': reals[k]['snaps'][-1]}, ans['error'])
+      continue
     for i, v in enumerate(ans['verdicts']):
       for p in LEAN_PREDICATES:
         if p in preds and not v[p]:
@@ -558,7 +561,7 @@ def evaluate(c, items, preds, deadline=None):
   return list(zip(reals, fails))
 
 
-def shrink(c, prog, be, pred, budget_rounds=12):
+def shrink(c, prog, be, pred, budget_rounds=24):
   """Drop steps (one per round, all candidates of a round judged by ONE driver call) while `pred` keeps failing."""
   cur = list(prog)
   for _ in range(budget_rounds):
@@ -608,7 +611,7 @@ def stage(c, prop, backends=('ram', 'sqlmem')):
     raise core.InfraError('clientcheck.stage: no predicates for ' + prop)
   t0 = time.time()
   budget = 20.0 if c.tier == 'quick' else 150.0
-  n_max = 50 if c.tier == "quick" else 1200
+  n_max = 50 if c.tier == "quick" else 500
   lengths = (5, 15) if c.tier == 'quick' else (5, 28)
   backends = list(backends)
   cfgs = _flags(c, backends)
@@ -675,8 +678,8 @@ def stage(c, prop, backends=('ram', 'sqlmem')):
     for s, o in zip(prog, real['obs']):
       c.count(1, kind='client:%s:%s' % (s['c'], o.get('cls', 'exc') if o.get('k') == 'exc' else o.get('k')))
     c.count(0, ('client-prog', prop, pi) if errs >= 1 and len(kinds & {'suggest', 'complete', 'delete_trial', 'request', 'add_trial', 'check_early_stopping'}) >= 2 else None)
-  if progs:
-    k = min(len(progs) - 1, n_directed)
+  if progs and results:
+    k = min(len(progs) - 1, n_directed, len(results) - 1)
     c.sample({'client_program': progs[k], 'real_observations(%s)' % backends[0]: results[k][0]['obs']})
   c.coverage_extra.setdefault('client_layer', {})[prop] = {
       'programs': len(progs), 'directed': n_directed, 'backends': backends, 'predicates': list(preds),
